@@ -135,6 +135,8 @@ impl C13 {
             edges.insert(*v, s.g.kids(*v));
         }
         let before = digest(s.g.as_ref(), O_KEYS | O_EDGES, &ctx.labels);
+        // "the source graph is unchanged": also everything it stores (data bytes, read marks, groups, counters)
+        let stored_before = s.g.snapshot();
         let mut starts: Vec<usize> = keys.iter().copied().collect();
         ctx.rng.shuffle(&mut starts);
         if !exhaustive_starts {
@@ -253,6 +255,27 @@ impl C13 {
         let after = digest(s.g.as_ref(), O_KEYS | O_EDGES, &ctx.labels);
         if before != after {
             return Some(format!("slicing changed the source graph: {}", first_diff(&before, &after)));
+        }
+        let stored_after = s.g.snapshot();
+        if stored_before != stored_after {
+            let what = stored_before
+                .slots
+                .iter()
+                .zip(stored_after.slots.iter())
+                .find(|(a, b)| a != b)
+                .map_or("group lists / counters / allocator".to_string(), |(a, b)| {
+                    format!(
+                        "ν{}: data {} → {}, read mark {} → {}, group {} → {}",
+                        a.id,
+                        crate::ops::hex(&a.data),
+                        crate::ops::hex(&b.data),
+                        a.persistence,
+                        b.persistence,
+                        a.branch,
+                        b.branch
+                    )
+                });
+            return Some(format!("slicing changed what the source graph stores ({what})"));
         }
         None
     }
